@@ -44,7 +44,6 @@ THEOREMS = [
 ]
 BUDGET = {"quick": 600, "thorough": 2400}
 
-VERSION = "8.3.0"
 SMALL = ["HED8.3.0.xml", "HED8.2.0.xml", "HED_testlib_1.0.2.xml"]
 T0 = 1_000_000          # logical clock of processes that are not about the refresh interval
 STEP_TIMEOUT = 120      # seconds the scheduler waits for a child to reach its next primitive
@@ -186,15 +185,15 @@ def _child(pid, proc, spec, cache, chan):
                 prim("read", idx_of(p))
                 try:
                     with real_open(p, "rb") as f:
-                        note("readhash", "cache", hashlib.sha1(f.read()).hexdigest())
+                        note("readhash", "cache", hashlib.sha1(f.read()).hexdigest(), os.path.basename(p))
                 except OSError:
-                    note("readhash", "cache", None)
+                    note("readhash", "cache", None, os.path.basename(p))
             else:
                 prim("create", idx_of(p))
         elif isinstance(file, (str, os.PathLike)) and os.path.dirname(os.path.abspath(file)) == bundle_dir \
                 and "r" in mode:
             with real_open(file, "rb") as f:
-                note("readhash", "bundled", hashlib.sha1(f.read()).hexdigest())
+                note("readhash", "bundled", hashlib.sha1(f.read()).hexdigest(), os.path.basename(str(file)))
         return real_open(file, mode, *a, **k)
 
     def w_listdir(path="."):
@@ -305,6 +304,16 @@ def _child(pid, proc, spec, cache, chan):
             note("exit")
 
     CL.__enter__, CL.__exit__ = enter, exit_
+
+    o_sub = hed_schema_io._load_schema_version_sub
+
+    def sub(xml_version, *a, **k):
+        """one version lookup + load = one `load v` process of the model"""
+        v = str(xml_version)
+        note("sub-begin", ("HED_" + v if "_" in v else "HED" + v) + ".xml")
+        return o_sub(xml_version, *a, **k)
+
+    hed_schema_io._load_schema_version_sub = sub
     tempfile.tempdir = os.path.join(os.path.dirname(cache), "systmp")   # downloads of a killed refresh stay in the scratch
     hed_cache.INSTALLED_CACHE_LOCATION = bundle_dir
     hed_cache.HED_CACHE_DIRECTORY = cache
@@ -318,10 +327,11 @@ def _child(pid, proc, spec, cache, chan):
             out["ret"] = hed_cache.cache_local_versions(cache)
         elif kind == "load":
             from hed import load_schema_version
-            sch = load_schema_version(VERSION)
+            sch = load_schema_version(proc["ver"])
             out["class"] = "ok"
-            out["version"] = sch.version_number
-            out["tags"] = len(getattr(sch, "tags", ()))
+            out["version"] = sch.get_formatted_version()
+            subs = list(sch._schemas.values()) if hasattr(sch, "_schemas") else [sch]
+            out["tags"] = [len(x.tags) for x in subs]
         elif kind == "refresh":
             urls = ["file://" + os.path.join(env.remote, f"lib{k}") for k in range(proc["arg"])]
             out["ret"] = hed_cache.cache_xml_versions(hed_base_urls=urls, hed_library_urls=[], cache_folder=cache)
@@ -372,6 +382,10 @@ def simulate(spec):
     torn_seen = set()
     ts_at_read = {}
     obs = {}
+    nreal = len(spec["procs"])
+    cur = list(range(nreal))                 # model pid the real process currently acts as
+    segs = {p: [] for p in range(nreal)}     # real loader -> [(model pid, file index)]
+    mtrace, mactions = [], []
 
     def pump(k):
         while True:
@@ -381,6 +395,10 @@ def simulate(spec):
                 os.waitpid(k.ospid, 0)
                 return
             if m[0] == "N":
+                if m[1] == "sub-begin":
+                    mp = k.pid if not segs[k.pid] else nreal + sum(max(0, len(v) - 1) for v in segs.values())
+                    segs[k.pid].append([mp, order_names.index(m[2]) if m[2] in order_names else -1, m[2]])
+                    cur[k.pid] = mp
                 log.append([k.pid] + m[1:])
             elif m[0] == "P":
                 k.state, k.pending = "pending", m[1:]
@@ -417,12 +435,15 @@ def simulate(spec):
             os.write(k.wfd, b"c\n")
             pump(k)
             actions.append([pid, 1])
+            mactions.append([cur[pid], 1])
             log.append([pid, "crash"])
             return True
         if k.pending[0] == "readTs":
             ts_at_read.setdefault(pid, []).append(read_ts())
         trace.append([pid] + k.pending)
+        mtrace.append([cur[pid]] + k.pending)
         actions.append([pid, 0])
+        mactions.append([cur[pid], 0])
         k.nprims += 1
         os.write(k.wfd, b"g\n")
         pump(k)
@@ -484,7 +505,8 @@ def simulate(spec):
                     bounds = env.chunk_bounds(nm)
                     k = bounds.index(len(b)) if len(b) in bounds and env.bytes[nm].startswith(b) else -2
                 files[name] = ["tmp", order_names.index(nm) if nm else -1, k]
-        obs = {"trace": trace, "actions": actions, "log": log, "files": files,
+        obs = {"trace": trace, "actions": actions, "mtrace": mtrace, "mactions": mactions, "segs": {str(k): v for k, v in segs.items()},
+               "log": log, "files": files,
                "torn_seen": sorted(torn_seen), "ts_at_read": {str(k): v for k, v in ts_at_read.items()},
                "procs": [{"state": k.state, "outcome": k.outcome, "nprims": k.nprims} for k in kids]}
     finally:
@@ -528,27 +550,35 @@ def regions(log):
     return overlaps
 
 
-def judge(spec, obs, thr, env):
+def judge(spec, obs, thr, env, refs=None):
     """The property on the implementation's observables. Returns [(clause, signature, detail)]."""
     out = []
     bundle_dir, names = env.bundles[spec["bundle"]]
-    vname = "HED" + VERSION + ".xml"
     log = obs["log"]
     # 1. no torn file is kept
     for name, f in obs["files"].items():
         if f[0] == "final" and not f[2]:
             out.append(("torn-file-kept", "C19-torn-copy-kept", f"{name} has {f[3]} of {len(env.bytes[name])} bytes"))
-    # 2. every completed load returns the bundled schema
+    # 2. every completed load returns the bundled schema (whatever it read is the bundled bytes of that file,
+    #    the call succeeds, and the result has the version and size of the reference load of that version)
     for pid, (proc, po) in enumerate(zip(spec["procs"], obs["procs"])):
         oc = po["outcome"]
-        hashes = [e[3] for e in log if e[0] == pid and e[1] == "readhash"]
+        reads = [e for e in log if e[0] == pid and e[1] == "readhash"]
         if proc["kind"] == "load" and po["state"] == "done":
+            bad = [e for e in reads if e[3] != env.sha.get(e[4])]
             if oc.get("class") != "ok":
-                torn = any(h != env.sha[vname] for h in hashes)
-                sig = "C19-torn-copy-served" if torn else "C19-missing-version-not-loaded"
-                out.append(("load-failed", sig, f"process {pid}: {oc.get('exc')} {oc.get('code')} {oc.get('msg', '')[:80]}"))
-            elif not hashes or hashes[-1] != env.sha[vname] or oc.get("version") != VERSION:
-                out.append(("load-different-content", "C19-torn-copy-served", f"process {pid}: read {hashes}"))
+                sig = "C19-torn-copy-served" if bad else "C19-missing-version-not-loaded"
+                out.append(("load-failed", sig, f"process {pid} load_schema_version({proc.get('ver')!r}): {oc.get('exc')} "
+                                                f"{oc.get('code')} {oc.get('msg', '')[:80]}"))
+            elif not reads or bad:
+                out.append(("load-different-content", "C19-torn-copy-served",
+                            f"process {pid} load_schema_version({proc.get('ver')!r}): read {[(e[4], e[2]) for e in bad or reads]}"))
+            else:
+                ref = (refs or {}).get(json.dumps(proc.get("ver")))
+                if ref is not None and [oc.get("version"), oc.get("tags")] != ref:
+                    out.append(("load-different-schema", "C19-load-differs-from-bundled",
+                                f"process {pid} load_schema_version({proc.get('ver')!r}) gave {[oc.get('version'), oc.get('tags')]}, "
+                                f"the bundled files give {ref}"))
         elif po["state"] == "done" and oc.get("class") == "error":
             out.append(("process-raised", "C19-cache-call-raised", f"process {pid} ({proc['kind']}): {oc.get('exc')} {oc.get('msg', '')[:80]}"))
         elif po["state"] == "died":
@@ -594,42 +624,74 @@ def judge(spec, obs, thr, env):
 
 # ----------------------------------------------------------------------------- model side
 
+def model_procs(spec, obs):
+    """Model processes of a run: one per real process, except that a loader is one `load v` per
+    `_load_schema_version_sub` call it made (a version list, or a library schema that pulls in its standard
+    partner, looks up and reads several files one after the other).  [{kind,arg,now,real,seg}]"""
+    n = len(spec["procs"])
+    out = [{"kind": p["kind"], "arg": p.get("arg", 0) if p["kind"] != "load" else 0, "now": p["now"], "real": i, "seg": 0}
+           for i, p in enumerate(spec["procs"])]
+    extra = {}
+    for rp, sg in obs["segs"].items():
+        for k, (mp, v, _name) in enumerate(sg):
+            rec = {"kind": "load", "arg": max(v, 0), "now": spec["procs"][int(rp)]["now"], "real": int(rp), "seg": k}
+            if mp < n:
+                out[mp] = rec
+            else:
+                extra[mp] = rec
+    return out + [extra[k] for k in sorted(extra)]
+
+
 def model_request(spec, obs, cfg):
     return {"op": "c19.run", "proto": "safe", "cfg": cfg,
-            "procs": [{"kind": p["kind"], "arg": p.get("arg", 0), "now": p["now"]} for p in spec["procs"]],
-            "sched": obs["actions"]}
+            "procs": [{"kind": p["kind"], "arg": p["arg"], "now": p["now"]} for p in model_procs(spec, obs)],
+            "sched": obs["mactions"]}
 
 
 def impl_view(spec, obs, env):
     """The implementation's observables in the model's vocabulary."""
-    _, names = env.bundles[spec["bundle"]]
-    vname = "HED" + VERSION + ".xml"
     finals = sorted([f[1], bool(f[2])] for f in obs["files"].values() if f[0] == "final")
     tmps = sorted([f[1] if f[2] != 0 and f[2] != -1 else -1, max(f[2], 0)] for f in obs["files"].values() if f[0] == "tmp")
     ts = obs["files"].get("last_update.txt")
+    # notes of each real process: [before the first lookup, lookup 0, lookup 1, ...]
+    parts = {}
+    for e in obs["log"]:
+        lst = parts.setdefault(e[0], [[]])
+        if e[1] == "sub-begin":
+            lst.append([])
+        lst[-1].append(e)
     procs = []
-    for pid, (proc, po) in enumerate(zip(spec["procs"], obs["procs"])):
+    for mp in model_procs(spec, obs):
+        po = obs["procs"][mp["real"]]
         oc = po["outcome"] or {}
-        mine = [e for e in obs["log"] if e[0] == pid]
+        allp = parts.get(mp["real"], [[]])
+        if mp["kind"] == "load":
+            begun = allp[1:]
+            mine = begun[mp["seg"]] if mp["seg"] < len(begun) else []
+            last = mp["seg"] == len(begun) - 1
+        else:
+            mine = [e for x in allp for e in x]
+            last = True
         err = None
         if any(e[1] == "enter-raised" and e[2] == "CacheException" for e in mine):
             err = "lockTimeout" if any(e[1] == "lock-failed" for e in mine) else "tooRecent"
         st = {"done": "finished", "crashed": "crashed"}.get(po["state"], po["state"])
         got = None
-        if proc["kind"] == "load" and po["state"] == "done":
-            hashes = [e[3] for e in mine if e[1] == "readhash"]
-            got = "bundled" if oc.get("class") == "ok" and hashes and hashes[-1] == env.sha[vname] else "bad"
+        if mp["kind"] == "load" and po["state"] == "done":
+            reads = [e for e in mine if e[1] == "readhash"]
+            ok = bool(reads) and all(e[3] == env.sha.get(e[4]) for e in reads) and (oc.get("class") == "ok" or not last)
+            got = "bundled" if ok else "bad"
         procs.append({"status": st, "err": err, "got": got})
-    return {"trace": [[t[0], t[1], t[2], t[3]] for t in obs["trace"]] + [[a[0], "crash", 0, 0] for a in []],
+    return {"trace": [[t[0], t[1], t[2], t[3]] for t in obs["mtrace"]],
             "finals": finals, "tmps": tmps, "lockFile": "cache_lock.lock" in obs["files"],
             "ts": None if ts is None else ts[1], "overlap": bool(regions(obs["log"])),
             "torn_seen": bool(obs["torn_seen"]), "procs": procs}
 
 
-def model_view(spec, ans, cfg):
+def model_view(spec, obs, ans, cfg):
     full = [True] * cfg["chunks"]
     procs = []
-    for proc, mp in zip(spec["procs"], ans["procs"]):
+    for proc, mp in zip(model_procs(spec, obs), ans["procs"]):
         got = None
         if proc["kind"] == "load" and mp["status"] == "finished":
             got = "bundled" if isinstance(mp["got"], list) and mp["got"] == [proc["arg"], full] else "bad"
@@ -677,27 +739,43 @@ def P(kind, arg=0, now=T0):
     return {"kind": kind, "arg": arg, "now": now}
 
 
+def L(ver, now=T0):
+    """loader of a version string ('8.3.0', 'score_2.0.0') or a list (['8.3.0', 'sc:score_2.0.0'])"""
+    return {"kind": "load", "ver": ver, "arg": 0, "now": now}
+
+
+def ver_of(name):
+    """'HED8.3.0.xml' -> '8.3.0', 'HED_score_2.0.0.xml' -> 'score_2.0.0'"""
+    stem = name[:-4]
+    return stem[4:] if stem.startswith("HED_") else stem[3:]
+
+
 def spec_of(bundle, procs, script=(), order=(), crash=None, tag=""):
     return {"bundle": bundle, "procs": procs, "script": list(script), "order": list(order),
             "crash": {str(k): v for k, v in (crash or {}).items()}, "tag": tag}
 
 
-def canonical_specs(vsmall):
-    """the three counter-example schedules of `current_counterexamples`, on the real code"""
-    L = lambda: P("load", vsmall)
+def canonical_specs(vers):
+    """the counter-example schedules of `current_counterexamples`, on the real code, and the refresh interval"""
+    v0, v1, v2 = vers
     return [
         spec_of("small", [P("populate"), P("populate")], script=[0, 0, 0, 0, 1, 1, 1, 1], order=[0, 1], tag="two-holders"),
-        spec_of("small", [P("populate"), P("populate"), L()], order=[0, 1, 2], crash={0: 7}, tag="killed-mid-copy"),
-        spec_of("small", [P("populate"), P("populate"), L()], order=[0, 1, 2], crash={0: 4}, tag="killed-mid-copy"),
-        spec_of("small", [P("populate"), L()], script=[0] * 7 + [1, 1], order=[0, 1], tag="load-during-copy"),
-        spec_of("small", [P("populate"), L()], script=[0] * 4 + [1, 1], order=[0, 1], tag="load-during-copy"),
+        spec_of("small", [P("populate"), P("populate"), L(v0)], order=[0, 1, 2], crash={0: 7}, tag="killed-mid-copy"),
+        spec_of("small", [P("populate"), P("populate"), L(v0)], order=[0, 1, 2], crash={0: 4}, tag="killed-mid-copy"),
+        spec_of("small", [P("populate"), L(v2), P("populate")], order=[0, 1, 2], crash={0: 10}, tag="killed-mid-copy"),
+        spec_of("small", [P("populate"), L(v0)], script=[0] * 7 + [1, 1], order=[0, 1], tag="load-during-copy"),
+        spec_of("small", [P("populate"), L(v0)], script=[0] * 4 + [1, 1], order=[0, 1], tag="load-during-copy"),
+        spec_of("small", [P("populate"), L(v2)], script=[0] * 12 + [1, 1], order=[1, 0], tag="load-during-copy"),
         spec_of("small", [P("populate"), P("populate")], script=[0, 0, 0], order=[1, 0], tag="lock-timeout"),
-        spec_of("small", [L(), L()], script=[0, 0, 0, 0, 0, 0], order=[1, 0], tag="two-first-use-loaders"),
+        spec_of("small", [L(v0), L(v2)], script=[0, 0, 0, 0, 0, 0], order=[1, 0], tag="two-first-use-loaders"),
         spec_of("small", [P("refresh", 2, T0), P("refresh", 2, T0 + 100), P("refresh", 2, T0 + 1799),
-                          P("refresh", 2, T0 + 1800), P("populate", 0, T0 + 1900), P("populate", 0, T0 + 3601), L()],
+                          P("refresh", 2, T0 + 1800), P("populate", 0, T0 + 1900), P("populate", 0, T0 + 3601), L(v1)],
                 order=[0, 1, 2, 3, 4, 5, 6], tag="refresh-interval"),
         spec_of("small", [P("refresh", 1, T0), P("refresh", 1, T0 + 5)], script=[0, 1], order=[0, 1], tag="refresh-race"),
     ]
+
+
+REFS = {}   # json(version spec) -> [formatted version, tag counts] of a load from a complete cache
 
 
 # ----------------------------------------------------------------------------- the check
@@ -707,7 +785,7 @@ def _pool(n):
     return mp.get_context("fork").Pool(n)
 
 
-def evaluate(ctx, specs, cfg_for, thr, pool):
+def evaluate(ctx, specs, cfg_for, thr, pool, judge_loads=True):
     """simulate all specs (in parallel), judge, compare with the model."""
     env = ENV
     obs_list = pool.map(_sim_safe, specs, chunksize=max(1, len(specs) // 64)) if pool else [_sim_safe(s) for s in specs]
@@ -729,14 +807,22 @@ def evaluate(ctx, specs, cfg_for, thr, pool):
         for po, proc in zip(obs["procs"], spec["procs"]):
             oc = po["outcome"] or {}
             ctx.count(f"{proc['kind']}:{po['state']}:" + str(oc.get("class", oc.get("ret"))))
+            if proc["kind"] == "load":
+                ctx.count("load-version:" + json.dumps(proc.get("ver")))
+                for e in obs["log"]:
+                    if e[1] == "readhash" and e[0] == spec["procs"].index(proc):
+                        ctx.count("load-read-from:" + e[2])
         case = {k: spec[k] for k in ("bundle", "procs", "script", "order", "crash")}
-        for clause, sig, detail in judge(spec, obs, thr, env):
+        for clause, sig, detail in judge(spec, obs, thr, env, REFS):
+            if not judge_loads and clause == "load-failed" and sig == "C19-missing-version-not-loaded" and not any(
+                    a[1] == 1 for a in obs["actions"]):
+                continue   # reference run: the package cannot load this bundled version at all (not a cache matter)
             ctx.count("violation:" + clause)
             ctx.violation(clause, case, detail, sig)
         if "error" in ans:
             ctx.disagree("Cache.safe driver", case, ans, None)
             continue
-        iv, mv = impl_view(spec, obs, env), model_view(spec, ans, cfg_for(spec))
+        iv, mv = impl_view(spec, obs, env), model_view(spec, obs, ans, cfg_for(spec))
         d = views_differ(iv, mv)
         if d:
             ctx.count("model-disagreement")
@@ -764,8 +850,6 @@ def run(ctx):
     try:
         ENV = Env(REPO, root, chunks)
         nfull = len(ENV.all_names)
-        vfull = ENV.all_names.index("HED" + VERSION + ".xml")
-        vsmall = SMALL.index("HED" + VERSION + ".xml")
 
         def cfg_for(spec):
             return {"nFiles": len(ENV.bundles[spec["bundle"]][1]), "chunks": chunks, "thr": thr, "retries": retries}
@@ -779,36 +863,81 @@ def run(ctx):
         ctx.notes.append("interleaving semantics at primitive granularity (each primitive = one system call or one chunk "
                          "of a copy); real flock, logical clocks; NFS / non-POSIX rename and power loss not covered")
         pool = _pool(min(12, os.cpu_count() or 2))
-        L = lambda v: P("load", v)
+        names = ENV.all_names
+        small_vers = [ver_of(n) for n in SMALL]
+
+        # reference loads: every bundled version (standard and library) and some version lists, each loaded by
+        # the real code from a complete cache; a version the package itself cannot load is left out (counted)
+        REFS.clear()
+        lists = [["8.3.0", "sc:score_2.0.0"], ["score_2.0.0", "tl:testlib_3.0.0"], ["8.2.0", "sc:score_1.1.0"]]
+        cand = [ver_of(n) for n in names] + lists
+        ro = evaluate(ctx, [spec_of("full", [P("populate"), L(v)], order=[0, 1], tag="reference-load") for v in cand],
+                      cfg_for, thr, pool, judge_loads=False)
+        for v, o in zip(cand, ro):
+            oc = o["procs"][1]["outcome"] or {}
+            if oc.get("class") == "ok":
+                REFS[json.dumps(v)] = [oc.get("version"), oc.get("tags")]
+            else:
+                ctx.count("bundled-version-not-loadable:" + json.dumps(v))
+        good = [v for v in cand if json.dumps(v) in REFS]
+        good_lists = [v for v in lists if json.dumps(v) in REFS]
+        ctx.extra["loadable_versions"] = good
+        if len([v for v in good if isinstance(v, str)]) < len(names):
+            ctx.notes.append("some bundled versions do not load even from a complete cache (see histogram); left out")
 
         # 0. canonical scenarios (the model's counter-example schedules and the refresh interval)
-        evaluate(ctx, canonical_specs(vsmall), cfg_for, thr, pool)
+        evaluate(ctx, canonical_specs(small_vers), cfg_for, thr, pool)
 
-        # 1. every crash point of one populate of the whole bundle, then a second populate and a load
-        base = spec_of("full", [P("populate"), P("populate"), L(vfull)], order=[0, 1, 2], tag="crash-enum")
+        # 1. every crash point of one populate of the whole bundle; then (a) a second populate and a load of any
+        #    version, (b) a load of a version whose file is NOT yet in the cache at that point, (c) a load of one
+        #    whose file is, (d) a version list; (b)-(d) before the second populate
+        base = spec_of("full", [P("populate"), P("populate"), L("8.3.0")], order=[0, 1, 2], tag="crash-enum")
         o = evaluate(ctx, [base], cfg_for, thr, None)[0]
         n0 = o["procs"][0]["nprims"]
+        mine = [t for t in o["trace"] if t[0] == 0]
+        # a file is in the cache once its rename (repaired code) / its first create (in-place copy) has run
+        done_at = [i for i, t in enumerate(mine) if t[1] == "rename"] or [i for i, t in enumerate(mine) if t[1] == "create"]
         ctx.extra["populate_primitives"] = n0
-        specs = [spec_of("full", [P("populate"), P("populate"), L(vfull)], order=[0, 1, 2], crash={0: k}, tag="crash-enum")
-                 for k in range(n0)]
-        specs += [spec_of("full", [P("populate"), L(vfull), P("populate")], order=[0, 1, 2], crash={0: k}, tag="crash-enum-load-first")
-                  for k in range(n0)]
+        specs = []
+        for k in range(n0):
+            ncop = sum(1 for r in done_at if r < k)
+            present = [ver_of(n) for n in names[:ncop] if json.dumps(ver_of(n)) in REFS]
+            missing = [ver_of(n) for n in names[ncop:] if json.dumps(ver_of(n)) in REFS]
+            anyv = [v for v in good if isinstance(v, str)]
+            specs.append(spec_of("full", [P("populate"), P("populate"), L(anyv[k % len(anyv)])], order=[0, 1, 2],
+                                 crash={0: k}, tag="crash-enum"))
+            if missing:
+                specs.append(spec_of("full", [P("populate"), L(missing[k % len(missing)]), P("populate")], order=[0, 1, 2],
+                                     crash={0: k}, tag="crash-enum-load-missing"))
+                lib = [v for v in missing if "_" in v]
+                if lib and k % 2 == 0:
+                    specs.append(spec_of("full", [P("populate"), L(lib[(k // 2) % len(lib)]), P("populate")], order=[0, 1, 2],
+                                         crash={0: k}, tag="crash-enum-load-missing"))
+            if present:
+                specs.append(spec_of("full", [P("populate"), L(present[k % len(present)]), P("populate")], order=[0, 1, 2],
+                                     crash={0: k}, tag="crash-enum-load-present"))
+            if good_lists and k % 4 == 0:
+                specs.append(spec_of("full", [P("populate"), L(good_lists[(k // 4) % len(good_lists)]), P("populate")],
+                                     order=[0, 1, 2], crash={0: k}, tag="crash-enum-load-list"))
         evaluate(ctx, specs, cfg_for, thr, pool)
 
-        # 2. two populates + one loader on the small bundle: all schedules with one preemption, a sample with two
-        procs = [P("populate"), P("populate"), L(vsmall)]
-        o = evaluate(ctx, [spec_of("small", procs, order=[0, 1, 2], tag="interleave-0"),
-                           spec_of("small", procs, order=[2, 0, 1], tag="interleave-0")], cfg_for, thr, None)
-        lens = [o[0]["procs"][0]["nprims"], o[0]["procs"][1]["nprims"], o[1]["procs"][2]["nprims"]]
+        # 2. two populates + one loader on the small bundle: all schedules with one preemption, a sample with two;
+        #    the loader's version rotates over the bundle (standard, older standard, library with partner)
+        def procs_for(i):
+            return [P("populate"), P("populate"), L(small_vers[i % len(small_vers)])]
+        o = evaluate(ctx, [spec_of("small", procs_for(0), order=[0, 1, 2], tag="interleave-0")] +
+                     [spec_of("small", procs_for(i), order=[2, 0, 1], tag="interleave-0") for i in range(3)], cfg_for, thr, None)
+        lens = [o[0]["procs"][0]["nprims"], o[0]["procs"][1]["nprims"], max(x["procs"][2]["nprims"] for x in o[1:])]
         ctx.extra["process_lengths_small"] = lens
-        one = []
+        one, two = [], []
+        c = 0
         for p1 in (0, 2):
             for n1 in range(1, lens[p1]):
                 for rest in itertools.permutations([0, 1, 2]):
                     if rest[0] == p1:
                         continue
-                    one.append(spec_of("small", procs, script=[p1] * n1, order=rest, tag="interleave-1"))
-        two = []
+                    c += 1
+                    one.append(spec_of("small", procs_for(c), script=[p1] * n1, order=rest, tag="interleave-1"))
         for p1 in (0, 2):
             for n1 in range(1, lens[p1]):
                 for p2 in (0, 1, 2):
@@ -818,23 +947,25 @@ def run(ctx):
                         for rest in itertools.permutations([0, 1, 2]):
                             if rest[0] == p2:
                                 continue
-                            two.append(spec_of("small", procs, script=[p1] * n1 + [p2] * n2, order=rest, tag="interleave-2"))
+                            c += 1
+                            two.append(spec_of("small", procs_for(c), script=[p1] * n1 + [p2] * n2, order=rest, tag="interleave-2"))
         ctx.rng.shuffle(two)
-        n_two = 500 if quick else len(two)
+        n_two = 400 if quick else len(two)
         evaluate(ctx, one, cfg_for, thr, pool)
         evaluate(ctx, two[:n_two], cfg_for, thr, pool)
         ctx.extra["interleave_two_switch_space"] = len(two)
 
         # 3. random deeper schedules with crashes; refresh mixed in
         rnd = []
-        n_rnd = 500 if quick else 6000
+        n_rnd = 400 if quick else 6000
         for _ in range(n_rnd):
+            rv = lambda: ctx.rng.choice(small_vers)
             kinds = ctx.rng.choice([
-                [P("populate"), P("populate"), L(vsmall)],
-                [P("populate"), L(vsmall), L(vsmall)],
-                [P("populate"), P("refresh", 2, T0), L(vsmall)],
-                [P("refresh", 2, T0), P("refresh", 1, T0 + ctx.rng.choice([0, 10, 1799, 1800, 5000])), L(vsmall)],
-                [P("refresh", 1, T0), P("populate", 0, T0 + ctx.rng.choice([0, 1799, 1800])), P("populate"), L(vsmall)],
+                [P("populate"), P("populate"), L(rv())],
+                [P("populate"), L(rv()), L(rv())],
+                [P("populate"), P("refresh", 2, T0), L(rv())],
+                [P("refresh", 2, T0), P("refresh", 1, T0 + ctx.rng.choice([0, 10, 1799, 1800, 5000])), L(rv())],
+                [P("refresh", 1, T0), P("populate", 0, T0 + ctx.rng.choice([0, 1799, 1800])), P("populate"), L(rv())],
             ])
             n = len(kinds)
             script = [ctx.rng.randrange(n) for _ in range(ctx.rng.randint(5, 70))]
